@@ -355,7 +355,10 @@ pub fn run_c04(a: &Args) {
         reach_counters(&case, &d);
         let mut ok = true;
         if case.wclass.weighted() {
-            ok &= c04_graph("C04", &case, &g, &d, true, &mut rng, !big && !huge, !huge);
+            // with zero-weight edges the number of tied paths can be exponential and the statement
+            // promises the path set only for strictly positive weights: no all-paths calls on larger graphs
+            let all_paths = !huge && !(case.wclass == WClass::ZeroContaining && case.n() > 12);
+            ok &= c04_graph("C04", &case, &g, &d, true, &mut rng, !big && !huge, all_paths);
         }
         if ok && (!case.wclass.weighted() || rng.chance(1, 3)) {
             c04_graph("C04", &case, &g, &d, false, &mut rng, !big && !huge, !huge);
